@@ -15,6 +15,50 @@ pub fn run() {
         }
         let a = kv(&line);
         let id: u64 = a["id"].parse().unwrap();
+        if a.get("op").map(|s| s == "abandon").unwrap_or(false) {
+            // a consumer drops its stream while the sender lives on and keeps sending; the events of OTHER streams that share a
+            // select batch with the abandoned one must not be disturbed
+            let rounds: u32 = a["rounds"].parse().unwrap();
+            let k: u32 = a["k"].parse().unwrap(); // messages on the healthy stream per round
+            let mut failures: Vec<serde_json::Value> = Vec::new();
+            for r in 0..rounds {
+                let (atx, arx) = ipc::channel::<(u32, u32)>().unwrap();
+                let (btx, brx) = ipc::channel::<(u32, u32)>().unwrap();
+                let astream = arx.to_stream();
+                let mut bstream = brx.to_stream();
+                drop(astream);
+                let _ = atx.send((0, 0));
+                for q in 0..k {
+                    let _ = btx.send((1, q));
+                }
+                let _ = atx.send((0, 1));
+                drop(btx);
+                let res = with_watchdog(4_000, move || {
+                    let mut items: Vec<u32> = Vec::new();
+                    let mut ended = false;
+                    futures::executor::block_on(async {
+                        while let Some(m) = bstream.next().await {
+                            if let Ok(m) = m {
+                                items.push(m.1);
+                            }
+                        }
+                        ended = true;
+                    });
+                    (items, ended)
+                });
+                match res {
+                    Some((items, true)) if items == (0..k).collect::<Vec<u32>>() => {},
+                    Some((items, ended)) => failures.push(json!({"round": r, "items": items, "ended": ended})),
+                    None => {
+                        failures.push(json!({"round": r, "hang": true}));
+                        break;
+                    },
+                }
+                drop(atx);
+            }
+            println!("{}", json!({"kind":"abandon","id":id,"rounds":rounds,"k":k,"failures":failures}));
+            continue;
+        }
         let plan: Vec<(u32, u32, bool)> = a["plan"]
             .split(';')
             .map(|p| {
